@@ -538,7 +538,9 @@ def fam_multiindex(seed):
     import pandas as pd
 
     on_columns = seed % 4 == 3
-    l0 = [[1, 1, 2, 2], [1, 2, 1, 2], [1, 1, 1, 2]][(seed // 4) % 3]
+    # column labels stay unique: dask.dataframe does not support duplicated column labels (x[label] of a duplicated label
+    # already differs from pandas when computed alone); row labels may repeat
+    l0 = [1, 1, 2, 2] if on_columns else [[1, 1, 2, 2], [1, 2, 1, 2], [1, 1, 1, 2]][(seed // 4) % 3]
     l1 = ["a", "b", "a", "b"]
     vals = [int(v) for v in _base(seed, (4,), "int64")]
 
